@@ -147,6 +147,8 @@ Proof.
   rewrite <- (firstn_skipn k l). apply in_or_app. now right.
 Qed.
 
+Ltac absurd_hyp := match goal with H : _ /\ _ |- _ => destruct H as [? ?]; discriminate end.
+
 (* the shape of the rendering: sign, integer digits, optional fraction, optional exponent *)
 Lemma dec_str_shape neg c e : 0 <= c ->
   exists ip dot fd x,
@@ -162,32 +164,32 @@ Proof.
   fold (sign_chars neg).
   destruct ((e <=? 0) && (-6 <? e + n)) eqn:Eplain.
   - (* positional notation, dot = e + n *)
+    replace (e + n =? e + n) with true by lia.
     destruct (e + n <=? 0) eqn:E1.
     + exists [48%N], true, (repeat 48%N (Z.to_nat (- (e + n))) ++ ds), None.
-      replace (e + n =? e + n) with true by lia. cbn [frac_chars exp_chars]. rewrite app_nil_r.
-      repeat split; try reflexivity; try discriminate.
-      * rewrite forallb_app, forallb_repeat_zero, Hall. reflexivity.
-      * change ([48%N] ++ repeat 48%N (Z.to_nat (- (e + n))) ++ ds) with (repeat 48%N (S (Z.to_nat (- (e + n)))) ++ ds).
-        now rewrite digits_value_zeros.
-      * cbn [exp_val]. rewrite zlen_app, zlen_repeat. fold n. lia.
-      * intros [? _]. discriminate.
-      * intros [? _]. discriminate.
+      cbn [frac_chars exp_chars]. rewrite app_nil_r.
+      split; [reflexivity|]. split; [discriminate|]. split; [reflexivity|].
+      split; [rewrite forallb_app, forallb_repeat_zero, Hall; reflexivity|]. split; [discriminate|].
+      split.
+      { change ([48%N] ++ repeat 48%N (Z.to_nat (- (e + n))) ++ ds) with (repeat 48%N (S (Z.to_nat (- (e + n)))) ++ ds).
+        now rewrite digits_value_zeros. }
+      split; [cbn [exp_val]; rewrite zlen_app, zlen_repeat; fold n; lia|].
+      intros [? _]. discriminate.
     + destruct (n <=? e + n) eqn:E2.
       * assert (e = 0) by lia. subst e.
-        exists ds, false, [], None. replace (0 + n - n) with 0 by lia. cbn [Z.to_nat repeat].
-        replace (0 + n =? 0 + n) with true by lia. cbn [frac_chars exp_chars]. rewrite !app_nil_r.
-        repeat split; try reflexivity; try assumption.
+        exists ds, false, [], None. replace (0 + n - n) with 0 by lia. cbn [Z.to_nat repeat frac_chars exp_chars].
+        rewrite !app_nil_r.
+        split; [reflexivity|]. split; [assumption|]. split; [assumption|]. split; [reflexivity|]. split; [reflexivity|].
+        split; [assumption|]. split; [cbn; lia|]. intros _. split; reflexivity.
       * exists (firstn (Z.to_nat (e + n)) ds), true, (skipn (Z.to_nat (e + n)) ds), None.
-        replace (e + n =? e + n) with true by lia. cbn [frac_chars exp_chars]. rewrite app_nil_r.
-        repeat split; try reflexivity.
-        -- intros Hf. apply (f_equal (@length N)) in Hf. rewrite firstn_length in Hf. cbn in Hf. subst n. unfold zlen in *. lia.
-        -- now apply forallb_firstn.
-        -- now apply forallb_skipn.
-        -- discriminate.
-        -- now rewrite firstn_skipn.
-        -- cbn [exp_val]. rewrite zlen_skipn by (fold n; lia). fold n. lia.
-        -- intros [? _]. discriminate.
-        -- intros [? _]. discriminate.
+        cbn [frac_chars exp_chars]. rewrite app_nil_r.
+        split; [reflexivity|]. split.
+        { intros Hf. assert (zlen (firstn (Z.to_nat (e + n)) ds) = e + n) as Hz by (apply zlen_firstn; fold n; lia).
+          rewrite Hf in Hz. cbn in Hz. lia. }
+        split; [now apply forallb_firstn|]. split; [now apply forallb_skipn|]. split; [discriminate|].
+        split; [now rewrite firstn_skipn|].
+        split; [cbn [exp_val]; rewrite zlen_skipn by (fold n; lia); fold n; lia|].
+        intros [? _]. discriminate.
   - (* scientific notation, dot = 1 *)
     replace (1 <=? 0) with false by reflexivity.
     assert (e + n <> 1) as Hne1 by lia.
@@ -196,19 +198,284 @@ Proof.
     + assert (n = 1) by lia.
       exists ds, false, [], (Some (e + n - 1)). replace (1 - n) with 0 by lia. cbn [Z.to_nat repeat frac_chars exp_chars].
       rewrite !app_nil_r. cbn [app].
-      repeat split; try reflexivity; try assumption.
-      * cbn [exp_val]. rewrite zlen_nil. lia.
-      * intros [_ ?]. discriminate.
-      * intros [_ ?]. discriminate.
+      split; [reflexivity|]. split; [assumption|]. split; [assumption|]. split; [reflexivity|]. split; [reflexivity|].
+      split; [assumption|]. split; [cbn; lia|]. intros [_ ?]. discriminate.
     + exists (firstn (Z.to_nat 1) ds), true, (skipn (Z.to_nat 1) ds), (Some (e + n - 1)).
       cbn [frac_chars exp_chars].
-      repeat split; try reflexivity.
-      * intros Hf. apply (f_equal (@length N)) in Hf. rewrite firstn_length in Hf. cbn in Hf. subst n. unfold zlen in *. lia.
-      * now apply forallb_firstn.
-      * now apply forallb_skipn.
-      * discriminate.
-      * now rewrite firstn_skipn.
-      * cbn [exp_val]. rewrite zlen_skipn by (fold n; lia). fold n. lia.
-      * intros [? _]. discriminate.
-      * intros [? _]. discriminate.
+      split; [reflexivity|]. split.
+      { intros Hf. assert (zlen (firstn (Z.to_nat 1) ds) = 1) as Hz by (apply zlen_firstn; fold n; lia).
+        rewrite Hf in Hz. cbn in Hz. lia. }
+      split; [now apply forallb_firstn|]. split; [now apply forallb_skipn|]. split; [discriminate|].
+      split; [now rewrite firstn_skipn|].
+      split; [cbn [exp_val]; rewrite zlen_skipn by (fold n; lia); fold n; lia|].
+      intros [? _]. discriminate.
+Qed.
+
+(* ---------- create_decimal on a rendering ---------- *)
+Lemma shape_dchar neg ip dot fd x :
+  forallb ascii_digit ip = true -> forallb ascii_digit fd = true ->
+  forallb dchar (sign_chars neg ++ ip ++ frac_chars dot fd ++ exp_chars x) = true.
+Proof.
+  intros Hip Hfd. rewrite !forallb_app.
+  rewrite (forallb_dchar_digits ip Hip).
+  assert (forallb dchar (sign_chars neg) = true) as -> by (destruct neg; reflexivity).
+  assert (forallb dchar (frac_chars dot fd) = true) as ->.
+  { destruct dot; [|reflexivity]. cbn [frac_chars forallb]. now rewrite (forallb_dchar_digits fd Hfd). }
+  assert (forallb dchar (exp_chars x) = true) as ->; [|reflexivity].
+  destruct x as [x|]; [|reflexivity]. cbn [exp_chars forallb]. unfold render_exp. cbn [forallb].
+  rewrite (forallb_dchar_digits _ (render_nat_digits (Z.abs x) ltac:(lia))). destruct (x <? 0); reflexivity.
+Qed.
+
+Lemma dec_str_dchar neg c e : 0 <= c -> forallb dchar (dec_str (DFin neg c e)) = true.
+Proof.
+  intros Hc. destruct (dec_str_shape neg c e Hc) as (ip & dot & fd & x & Heq & _ & Hip & Hfd & _).
+  rewrite Heq. now apply shape_dchar.
+Qed.
+
+Lemma create_decimal_str p neg c e : 0 <= c ->
+  create_decimal p (dec_str (DFin neg c e)) = dec_fix p neg c e.
+Proof.
+  intros Hc. destruct (dec_str_shape neg c e Hc) as (ip & dot & fd & x & Heq & Hne & Hip & Hfd & Hdot & Hval & Hexp & _).
+  unfold create_decimal. rewrite map_opt_dchar by (now apply dec_str_dchar).
+  rewrite Heq, dec_syntax_shape by assumption. now rewrite Hval, Hexp.
+Qed.
+
+(* the text DecimalFactory builds for an all-digit input: digits, a point, z zeros *)
+Lemma create_decimal_padded p c z : 0 <= c ->
+  create_decimal p (render_nat c ++ 46%N :: repeat 48%N z) = dec_fix p false (c * 10 ^ Z.of_nat z) (- Z.of_nat z).
+Proof.
+  intros Hc. pose proof (render_nat_spec c Hc) as (Hne & Hall & Hval & _).
+  assert (render_nat c ++ 46%N :: repeat 48%N z
+          = sign_chars false ++ render_nat c ++ frac_chars true (repeat 48%N z) ++ exp_chars None) as Heq.
+  { cbn [sign_chars frac_chars exp_chars app]. now rewrite app_nil_r. }
+  unfold create_decimal. rewrite Heq.
+  rewrite map_opt_dchar by (apply shape_dchar; [assumption|apply forallb_repeat_zero]).
+  rewrite dec_syntax_shape by (try assumption; try apply forallb_repeat_zero; discriminate).
+  rewrite digits_value_app_zeros by assumption. rewrite Hval, zlen_repeat. cbn [exp_val].
+  replace (0 - Z.of_nat z) with (- Z.of_nat z) by lia. reflexivity.
+Qed.
+
+Lemma str_isdigit_all s : str_isdigit s = true -> forall c, In c s -> is_digit_char c = true.
+Proof.
+  unfold str_isdigit. destruct s as [|a s]; [discriminate|]. intros H c Hc. rewrite forallb_forall in H. auto.
+Qed.
+
+Lemma isdigit_shape neg ip dot fd x :
+  str_isdigit (sign_chars neg ++ ip ++ frac_chars dot fd ++ exp_chars x) = true ->
+  neg = false /\ dot = false /\ x = None.
+Proof.
+  intros H. pose proof (str_isdigit_all _ H) as A.
+  repeat split.
+  - destruct neg; [|reflexivity]. specialize (A 45%N). cbn [sign_chars app] in A.
+    assert (is_digit_char 45 = true) as C by (apply A; now left). vm_compute in C. discriminate.
+  - destruct dot; [|reflexivity]. specialize (A 46%N).
+    assert (is_digit_char 46 = true) as C.
+    { apply A. apply in_or_app. right. apply in_or_app. right. apply in_or_app. left. now left. }
+    vm_compute in C. discriminate.
+  - destruct x as [x|]; [|reflexivity]. specialize (A 69%N).
+    assert (is_digit_char 69 = true) as C.
+    { apply A. apply in_or_app. right. apply in_or_app. right. apply in_or_app. right. now left. }
+    vm_compute in C. discriminate.
+Qed.
+
+(* ---------- no rounding when the value fits ---------- *)
+Lemma ctx_range : dec_emin <= -2000 /\ 2000 <= dec_emax /\ 38 <= dec_max_prec /\
+                  0 <= isdigit_pad_cap /\ 0 <= safe_scale_cap <= 1000.
+Proof. vm_compute. repeat split; discriminate. Qed.
+
+Lemma dec_fix_exact p neg c e : 1 <= p <= 38 -> 0 <= c -> (c = 0 \/ ndig c <= p) -> -1000 <= e <= 1000 ->
+  dec_fix p neg c e = ROk (DFin neg c e).
+Proof.
+  intros Hp Hc Hfit He. destruct ctx_range as (Hmin & Hmax & _). unfold dec_fix. cbv zeta.
+  destruct (c =? 0) eqn:E0.
+  - assert (c = 0) by lia. subst. do 2 f_equal. lia.
+  - destruct Hfit as [->|Hfit]; [discriminate|].
+    replace (dec_emax - p + 1 <? ndig c + e - p) with false by lia.
+    replace (e <? Z.max (ndig c + e - p) (dec_emin - p + 1)) with false by lia. reflexivity.
+Qed.
+
+Lemma quantize_exact p s neg c e : 1 <= p <= 38 -> 0 <= s <= 1000 -> - s <= e <= 1000 -> 0 <= c ->
+  (c = 0 \/ ndig c + (e + s) <= p) ->
+  dec_quantize p (- s) (DFin neg c e) = ROk (DFin neg (c * 10 ^ (e + s)) (- s)).
+Proof.
+  intros Hp Hs He Hc Hfit. destruct ctx_range as (Hmin & Hmax & _). unfold dec_quantize. cbv zeta.
+  replace ((dec_emax <? - s) || (- s <? dec_emin - p + 1)) with false by lia.
+  destruct (c =? 0) eqn:E0.
+  - assert (c = 0) by lia. subst. rewrite dec_fix_exact by lia. now rewrite Z.mul_0_l.
+  - destruct Hfit as [->|Hfit]; [discriminate|]. assert (0 < c) by lia.
+    replace (e - - s) with (e + s) by lia.
+    replace (p <? ndig c + (e + s)) with false by lia.
+    replace (- s <=? e) with true by lia.
+    assert (0 < 10 ^ (e + s)) by (apply Z.pow_pos_nonneg; lia).
+    rewrite ndig_mul_pow by lia.
+    replace (p <? ndig c + (e + s)) with false by lia.
+    pose proof (ndig_pos c ltac:(lia)).
+    replace ((dec_emax <? ndig c + (e + s) + - s - 1) || (ndig c + (e + s) + - s - 1 <? dec_emin - p + 1)) with false by lia.
+    assert (0 <= c * 10 ^ (e + s)) by nia.
+    apply dec_fix_exact; [lia|assumption| |lia]. right. rewrite ndig_mul_pow by lia. lia.
+Qed.
+
+(* DecimalFactory(p, s) on the rendering of a decimal that fits DECIMAL(p, s): the value,
+   exactly, at exponent -s *)
+Lemma factory_exact p s neg c e :
+  1 <= p <= 38 -> 0 <= s <= safe_scale_cap -> - s <= e <= 1000 -> 0 <= c ->
+  (c = 0 \/ ndig c + (e + s) <= p) ->
+  decimal_factory p s (dec_str (DFin neg c e)) = ROk (DFin neg (c * 10 ^ (e + s)) (- s)).
+Proof.
+  intros Hp Hs He Hc Hfit. destruct ctx_range as (Hmin & Hmax & Hprec & Hpad & Hcap).
+  unfold decimal_factory.
+  replace ((p <? 1) || (dec_max_prec <? p)) with false by lia.
+  replace (Z.min s safe_scale_cap) with s by lia.
+  destruct (str_isdigit (dec_str (DFin neg c e))) eqn:Ed.
+  - destruct (dec_str_shape neg c e Hc) as (ip & dot & fd & x & Heq & Hne & Hip & Hfd & Hdot & Hval & Hexp & Hplain).
+    rewrite Heq in Ed. apply isdigit_shape in Ed. destruct Ed as (-> & -> & ->).
+    destruct (Hplain (conj eq_refl eq_refl)) as (-> & ->).
+    rewrite Heq. cbn [sign_chars frac_chars exp_chars app]. rewrite !app_nil_r.
+    rewrite create_decimal_padded by assumption.
+    set (z := Z.of_nat (Z.to_nat (Z.min s isdigit_pad_cap))).
+    assert (0 <= z <= s) as Hz by (subst z; lia).
+    assert (0 < 10 ^ z) by (apply Z.pow_pos_nonneg; lia).
+    assert (0 <= c * 10 ^ z) as Hcz by nia.
+    assert (c * 10 ^ z = 0 \/ ndig (c * 10 ^ z) + (- z + s) <= p) as Hfit'.
+    { destruct Hfit as [->|Hfit]; [left; lia|].
+      destruct (Z.eq_dec c 0) as [->|Hnz]; [left; lia|]. right. rewrite ndig_mul_pow by lia. lia. }
+    rewrite dec_fix_exact; [|lia|assumption| |lia].
+    + cbn [rbind]. rewrite quantize_exact; [|lia|lia|lia|assumption|assumption].
+      do 2 f_equal. rewrite <- Z.mul_assoc, <- Z.pow_add_r by lia. do 2 f_equal. lia.
+    + destruct Hfit' as [->|Hf]; [now left|right; lia].
+  - rewrite create_decimal_str by assumption.
+    rewrite dec_fix_exact; [|lia|assumption| |lia].
+    + cbn [rbind]. rewrite quantize_exact; [reflexivity|lia|lia|lia|assumption|assumption].
+    + destruct Hfit as [->|Hfit]; [now left|]. right. lia.
+Qed.
+
+(* ---------- stripping ---------- *)
+Lemma drop_space_spaces ws r : forallb in_space ws = true -> drop_space (ws ++ r) = drop_space r.
+Proof.
+  induction ws as [|c ws IH]; intros H; [reflexivity|].
+  cbn [forallb] in H. apply andb_true_iff in H. destruct H as [Hc Hs].
+  cbn [app drop_space]. rewrite Hc. now apply IH.
+Qed.
+
+Lemma py_strip_padded ws1 ws2 text :
+  forallb in_space ws1 = true -> forallb in_space ws2 = true -> forallb dchar text = true ->
+  py_strip (ws1 ++ text ++ ws2) = text.
+Proof.
+  intros H1 H2 Ht. unfold py_strip. rewrite drop_space_spaces by assumption.
+  destruct text as [|c text].
+  - cbn [app]. rewrite <- (app_nil_r ws2) at 1. rewrite drop_space_spaces by assumption. cbn [drop_space rev].
+    reflexivity.
+  - assert (drop_space ((c :: text) ++ ws2) = (c :: text) ++ ws2) as ->.
+    { cbn [forallb] in Ht. apply andb_true_iff in Ht. cbn [app drop_space]. now rewrite (proj1 (dchar_props c (proj1 Ht))). }
+    rewrite rev_app_distr. rewrite drop_space_spaces.
+    + rewrite drop_space_nospace; [apply rev_involutive|].
+      apply forallb_forall. intros x Hx. rewrite forallb_forall in Ht. apply Ht. now apply in_rev.
+    + apply forallb_forall. intros x Hx. rewrite forallb_forall in H2. apply H2. now apply in_rev.
+Qed.
+
+Lemma utf8_decode_ascii s : forallb (fun c => c <? 128)%N s = true -> utf8_decode s = Some s.
+Proof.
+  induction s as [|c s IH]; intros H; [reflexivity|].
+  cbn [forallb] in H. apply andb_true_iff in H. destruct H as [Hc Hs].
+  cbn [utf8_decode]. rewrite Hc, IH by assumption. reflexivity.
+Qed.
+
+Lemma dchar_ascii s : forallb dchar s = true -> forallb (fun c => c <? 128)%N s = true.
+Proof.
+  intros H. apply forallb_forall. intros c Hc. rewrite forallb_forall in H. specialize (H c Hc).
+  apply dchar_cases in H. lia.
+Qed.
+
+Lemma space_ascii_blank ws : forallb blank ws = true -> forallb in_space ws = true.
+Proof.
+  intros H. apply forallb_forall. intros c Hc. rewrite forallb_forall in H. specialize (H c Hc).
+  unfold blank in H.
+  assert (c = 32 \/ c = 9 \/ c = 10 \/ c = 11 \/ c = 12 \/ c = 13)%N as D by lia.
+  repeat (destruct D as [->|D]; [vm_compute; reflexivity|]). subst. vm_compute. reflexivity.
+Qed.
+
+(* ---------- numerically exact even when the value does not fit DECIMAL(p, s) ---------- *)
+(* quantize either pads to exponent -s exactly or signals InvalidOperation; it never rounds
+   a value whose exponent is already >= -s *)
+Lemma quantize_cases p s neg c e : 1 <= p <= 38 -> 0 <= s <= 1000 -> - s <= e <= 1000 -> 0 <= c ->
+  dec_quantize p (- s) (DFin neg c e) = ROk (DFin neg (c * 10 ^ (e + s)) (- s)) \/
+  dec_quantize p (- s) (DFin neg c e) = RErr XInvalidOp.
+Proof.
+  intros Hp Hs He Hc.
+  destruct (Z.eq_dec c 0) as [->|Hnz]; [left; apply quantize_exact; try lia; now left|].
+  destruct (Z_le_gt_dec (ndig c + (e + s)) p) as [Hfit|Hbig]; [left; apply quantize_exact; try lia; now right|].
+  right. destruct ctx_range as (Hmin & Hmax & _). unfold dec_quantize. cbv zeta.
+  replace ((dec_emax <? - s) || (- s <? dec_emin - p + 1)) with false by lia.
+  replace (c =? 0) with false by lia. replace (e - - s) with (e + s) by lia.
+  replace (p <? ndig c + (e + s)) with true by lia. reflexivity.
+Qed.
+
+(* rounding c * 10^z to p digits only drops zeros when c itself has at most p digits *)
+Lemma dec_fix_trailing_zeros p c z : 1 <= p <= 38 -> 0 < c -> ndig c <= p -> 0 <= z <= 1000 ->
+  exists z', 0 <= z' <= z /\ dec_fix p false (c * 10 ^ z) (- z) = ROk (DFin false (c * 10 ^ z') (- z')).
+Proof.
+  intros Hp Hc Hd Hz. destruct ctx_range as (Hmin & Hmax & _).
+  assert (0 < 10 ^ z) by (apply Z.pow_pos_nonneg; lia).
+  destruct (Z_le_gt_dec (ndig c + z) p) as [Hfit|Hbig].
+  - exists z. split; [lia|]. apply dec_fix_exact; [lia|nia| |lia]. right. rewrite ndig_mul_pow by lia. lia.
+  - set (j := ndig c + z - p). assert (0 < j <= z) as Hj by (subst j; lia).
+    exists (z - j). split; [lia|].
+    unfold dec_fix. cbv zeta. replace (c * 10 ^ z =? 0) with false by nia.
+    rewrite ndig_mul_pow by lia.
+    replace (dec_emax - p + 1 <? ndig c + z + - z - p) with false by lia.
+    replace (Z.max (ndig c + z + - z - p) (dec_emin - p + 1)) with (ndig c - p) by lia.
+    replace (- z <? ndig c - p) with true by lia.
+    replace (ndig c - p - - z) with j by (subst j; lia).
+    assert (0 < 10 ^ j) by (apply Z.pow_pos_nonneg; lia).
+    assert (0 < 10 ^ (z - j)) by (apply Z.pow_pos_nonneg; lia).
+    assert (c * 10 ^ z = c * 10 ^ (z - j) * 10 ^ j) as Hsplit.
+    { rewrite <- Z.mul_assoc, <- Z.pow_add_r by lia. do 2 f_equal. lia. }
+    assert (round_he (c * 10 ^ z) j = c * 10 ^ (z - j)) as ->.
+    { unfold round_he. rewrite ndig_mul_pow by lia. replace (ndig c + z <? j) with false by (subst j; lia).
+      cbv zeta. rewrite Hsplit. rewrite Z.div_mul, Z.mod_mul by lia.
+      replace (10 ^ j <? 2 * 0) with false by lia. replace (10 ^ j =? 2 * 0) with false by lia. reflexivity. }
+    rewrite ndig_mul_pow by lia.
+    replace (p <? ndig c + (z - j)) with false by (subst j; lia).
+    replace (dec_emax - p + 1 <? ndig c - p) with false by lia.
+    do 2 f_equal. subst j. lia.
+Qed.
+
+(* every decimal with at most p significant digits and exponent >= -s comes back with the
+   same numerical value (c2 * 10^e2 = c * 10^e, stated after scaling by 10^s) *)
+Lemma factory_numeric p s neg c e :
+  1 <= p <= 38 -> 0 <= s <= safe_scale_cap -> - s <= e <= 1000 -> 0 <= c -> (c = 0 \/ ndig c <= p) ->
+  exists c2 e2, decimal_factory p s (dec_str (DFin neg c e)) = ROk (DFin neg c2 e2) /\
+                - s <= e2 /\ c2 * 10 ^ (e2 + s) = c * 10 ^ (e + s).
+Proof.
+  intros Hp Hs He Hc Hfit. destruct ctx_range as (Hmin & Hmax & Hprec & Hpad & Hcap).
+  unfold decimal_factory.
+  replace ((p <? 1) || (dec_max_prec <? p)) with false by lia.
+  replace (Z.min s safe_scale_cap) with s by lia.
+  assert (forall c1 e1, 0 <= c1 -> - s <= e1 <= 1000 -> c1 * 10 ^ (e1 + s) = c * 10 ^ (e + s) ->
+          exists c2 e2,
+            match dec_quantize p (- s) (DFin neg c1 e1) with
+            | ROk r => ROk r | RErr XInvalidOp => ROk (DFin neg c1 e1) | RErr e0 => RErr e0
+            end = ROk (DFin neg c2 e2) /\ - s <= e2 /\ c2 * 10 ^ (e2 + s) = c * 10 ^ (e + s)) as Hq.
+  { intros c1 e1 Hc1 He1 Hv. destruct (quantize_cases p s neg c1 e1) as [-> | ->]; try lia.
+    - exists (c1 * 10 ^ (e1 + s)), (- s). split; [reflexivity|]. split; [lia|].
+      replace (- s + s) with 0 by lia. rewrite Z.pow_0_r. lia.
+    - exists c1, e1. split; [reflexivity|]. split; [lia|exact Hv]. }
+  destruct (str_isdigit (dec_str (DFin neg c e))) eqn:Ed.
+  - destruct (dec_str_shape neg c e Hc) as (ip & dot & fd & x & Heq & Hne & Hip & Hfd & Hdot & Hval & Hexp & Hplain).
+    rewrite Heq in Ed. apply isdigit_shape in Ed. destruct Ed as (-> & -> & ->).
+    destruct (Hplain (conj eq_refl eq_refl)) as (-> & ->).
+    rewrite Heq. cbn [sign_chars frac_chars exp_chars app]. rewrite !app_nil_r.
+    rewrite create_decimal_padded by assumption.
+    set (z := Z.of_nat (Z.to_nat (Z.min s isdigit_pad_cap))).
+    assert (0 <= z <= s) as Hz by (subst z; lia).
+    destruct (Z.eq_dec c 0) as [->|Hnz].
+    + rewrite Z.mul_0_l. rewrite dec_fix_exact; [|lia|lia|now left|lia]. cbn [rbind].
+      apply Hq; try lia.
+    + destruct Hfit as [->|Hd]; [congruence|].
+      destruct (dec_fix_trailing_zeros p c z Hp ltac:(lia) Hd ltac:(lia)) as (z' & Hz' & ->). cbn [rbind].
+      assert (0 < 10 ^ z') by (apply Z.pow_pos_nonneg; lia).
+      apply Hq; [nia|lia|].
+      rewrite <- Z.mul_assoc, <- Z.pow_add_r by lia. do 2 f_equal. lia.
+  - rewrite create_decimal_str by assumption.
+    rewrite dec_fix_exact; [|lia|assumption|assumption|lia]. cbn [rbind]. apply Hq; try lia.
 Qed.
